@@ -48,6 +48,10 @@ type Call struct {
 	// Force=parked (control) - the reply is released ParkMs after the call started.
 	Force  string `json:"force,omitempty"`
 	ParkMs int    `json:"park_ms,omitempty"`
+	// OneLine: the whole reply is ONE line (no newline anywhere in the payload), 1-5 kB long.
+	// NoNL (1.0): no newline behind the ]]>]]> delimiter either (default: "]]>]]>\n", Junos style).
+	OneLine bool `json:"one_line,omitempty"`
+	NoNL    bool `json:"no_nl,omitempty"`
 	// Collide: the body carries an element whose name collides with a token the library scans the
 	// stream for (hello, capability, session-id, subscription-id, subscription-result, rpc-error-count,
 	// ok); the element itself is part of Fill.
@@ -80,6 +84,12 @@ type Session struct {
 	// are put between the CR and its LF: "none" | "framing" (the pairs right after ##, after a chunk
 	// header, after ]]>]]>) | "random" | "every".
 	TTY string `json:"tty,omitempty"`
+	// ChanLog: a channel log (options.WithChannelLog) whose sink refuses writes: refuse-k (the LogK-th
+	// write), refuse-mod / short-mod (every LogK-th write is refused / written short without error),
+	// cap (LogCap bytes are accepted in total), healthy. The library ignores channel log errors.
+	ChanLog string `json:"chan_log,omitempty"`
+	LogK    int    `json:"log_k,omitempty"`
+	LogCap  int    `json:"log_cap,omitempty"`
 	// SlowLogUs: a debug logger that takes this long for every "channel read" line, i.e. a NETCONF
 	// read loop that runs behind the channel's read loop (schedule perturbation through the
 	// public logging hook)
@@ -122,10 +132,14 @@ func clean(s string) bool {
 }
 
 func (c Call) filler() string {
+	f := c.Fill
 	if c.FillLen > 0 {
-		return randStr(rand.New(rand.NewSource(c.FillSeed)), fillAlpha, c.FillLen)
+		f = randStr(rand.New(rand.NewSource(c.FillSeed)), fillAlpha, c.FillLen)
 	}
-	return c.Fill
+	if c.OneLine {
+		f = strings.ReplaceAll(f, "\n", " ")
+	}
+	return f
 }
 
 // buildPayload is the reply the model server gives to call c when its request carried id.
@@ -359,6 +373,14 @@ func GenSession(r *rand.Rand, idx int) Session {
 	if s.NoEchoMark && (idx/8)%3 != 0 { // a fixed two thirds of those
 		s.HoldHelloTail = 1 + r.Intn(8)
 	}
+	if idx%7 == 3 { // a fixed share of the sessions writes a channel log to a sink that refuses writes
+		s.ChanLog = []string{"refuse-mod", "cap", "short-mod", "refuse-k", "refuse-mod", "cap", "healthy"}[(idx/7)%7]
+		s.LogK = 2 + r.Intn(5)
+		if s.ChanLog == "refuse-k" {
+			s.LogK = 3 + r.Intn(10)
+		}
+		s.LogCap = 300 + r.Intn(4000)
+	}
 	if idx%3 == 1 { // a fixed third of the sessions runs behind a tty line discipline
 		s.TTY = []string{"every", "framing", "random", "none", "every", "framing"}[(idx/3)%6]
 		if (s.Profile == "big" || s.ReadDelayMs > 0) && s.TTY != "none" {
@@ -472,7 +494,10 @@ func GenSession(r *rand.Rand, idx int) Session {
 				c.Plan = "local"
 			}
 		}
-		big := (maxFill == 600 && r.Intn(14) == 0) || huge
+		// a fixed share of the replies is one long line (not with one-byte reads: thousands of reads per
+		// reply, and the end of the delimiter never shares a read with what follows it there)
+		oneLine := !huge && (idx*3+k)%7 == 2 && !(s.Seg.Mode == "fixed" && s.Seg.Size == 1)
+		big := (maxFill == 600 && r.Intn(14) == 0) || huge || oneLine
 		if s.HoldHelloTail > 0 && reqs == 0 && c.Plan != "local" && !(s.Seg.Mode == "fixed" && s.Seg.Size < 17) && r.Intn(4) != 0 {
 			// a first request larger than any read: its echo starts in the read that ends the echo of
 			// the client's hello and does not end there
@@ -489,7 +514,15 @@ func GenSession(r *rand.Rand, idx int) Session {
 		c.Shape = []int{0, 0, 0, 1, 2, 3, 4, 5}[r.Intn(8)]
 		c.Body = []string{"data", "data", "ok", "error"}[r.Intn(4)]
 		for {
-			if huge {
+			if oneLine {
+				c.OneLine = true
+				c.FillLen = 1000 + r.Intn(4000)
+				if maxFill < 200 {
+					c.FillLen = 1000 + r.Intn(200) // tiny reads: keep it short, still >= 1000 on one line
+				}
+				c.FillSeed = r.Int63()
+				c.Body = "data"
+			} else if huge {
 				c.FillLen = 150*1024 + r.Intn(150*1024)
 				c.FillSeed = r.Int63()
 				c.Body = "data"
@@ -539,6 +572,10 @@ func GenSession(r *rand.Rand, idx int) Session {
 				h := len(c.Fill) / 2
 				c.Fill = c.Fill[:h] + x + c.Fill[h:]
 			}
+		}
+		if c.OneLine {
+			c.Shape = []int{0, 1, 2, 5}[r.Intn(4)] // the spellings without a newline of their own
+			c.NoNL = s.Version == "1.0" && r.Intn(3) == 0
 		}
 		if c.Plan == "late" {
 			c.Release = releases[r.Intn(len(releases))]
